@@ -10,6 +10,7 @@ package main
 import (
 	"bufio"
 	"context"
+	"encoding/base64"
 	"encoding/json"
 	"flag"
 	"fmt"
@@ -51,6 +52,8 @@ type progIn struct {
 	Fault  *progFault `json:"fault,omitempty"`
 	Opts   *progOpts  `json:"opts,omitempty"`
 	Snap   bool       `json:"snap,omitempty"`
+	// load-only mode (C08): the source is given as base64 (arbitrary bytes), loaded twice, never run
+	LoadB64 string `json:"loadb64,omitempty"`
 }
 
 type progOut struct {
@@ -222,7 +225,50 @@ func (t *tokenizer) toks(vs []lua.LValue) []interface{} {
 
 // ---- running one program --------------------------------------------------------
 
+// loadOnly classifies what loading the bytes does: "ok" (a function), "syntax" (an
+// error classified as syntax/compile error), or anything else, which no reading of C08 admits.
+func loadOnly(p progIn) (res progOut) {
+	res.ID = p.ID
+	res.Emits = []interface{}{}
+	src, err := base64.StdEncoding.DecodeString(p.LoadB64)
+	if err != nil {
+		res.Outcome = []interface{}{"load", "badinput", ""}
+		return
+	}
+	one := func() (class string, msg string) {
+		defer func() {
+			if r := recover(); r != nil {
+				class, msg = "gopanic", fmt.Sprint(r)
+			}
+		}()
+		L := lua.NewState(lua.Options{SkipOpenLibs: true})
+		defer L.Close()
+		fn, err := L.LoadString(string(src))
+		if err == nil {
+			if fn == nil {
+				return "nil-function", ""
+			}
+			return "ok", ""
+		}
+		if ae, ok := err.(*lua.ApiError); ok && ae.Type == lua.ApiErrorSyntax {
+			return "syntax", ae.Error()
+		}
+		return "other-error", err.Error()
+	}
+	c1, m1 := one()
+	c2, m2 := one()
+	same := c1 == c2 && m1 == m2
+	if len(m1) > 200 {
+		m1 = m1[:200]
+	}
+	res.Outcome = []interface{}{"load", c1, m1, same}
+	return
+}
+
 func runProgram(p progIn) (res progOut) {
+	if p.LoadB64 != "" || p.Src == "" && p.Budget == -1 {
+		return loadOnly(p)
+	}
 	res.ID = p.ID
 	res.Emits = []interface{}{}
 	opts := lua.Options{}
